@@ -32,6 +32,7 @@ type funcTarget struct {
 	recv     string // receiver type name or ""
 	name     string
 	skeleton bool   // keep control structure and returns only
+	prefix   bool   // translate the leading statements only: stop (result 0 = "goes on") at the first top-level statement outside the subset
 	fragTag  string // fragment mode: translate the first `switch <fragTag>` statement ...
 	fragOut  string // ... as a function of fragTag returning the final value of fragOut
 }
@@ -47,6 +48,9 @@ var funcTargets = []funcTarget{
 	{pkg: "gws", recv: "frameHeader", name: "SetLength", skeleton: true},
 	{pkg: "gws", recv: "Opcode", name: "isDataFrame"},
 	{pkg: "gws", recv: "Conn", name: "emitClose", fragTag: "realCode", fragOut: "responseCode"},
+	{pkg: "gws", recv: "Conn", name: "checkMask"},
+	{pkg: "gws", recv: "Conn", name: "readMessage", skeleton: true, prefix: true},
+	{pkg: "gws", recv: "Conn", name: "readControl", skeleton: true, prefix: true},
 	{pkg: "internal", name: "binaryCeil"},
 	{pkg: "internal", name: "Min"},
 	{pkg: "internal", name: "Max"},
@@ -55,11 +59,52 @@ var funcTargets = []funcTarget{
 }
 
 type ftr struct {
-	info   *types.Info
-	tgt    funcTarget
-	recv   string          // receiver identifier
-	params map[string]bool // extra parameters discovered ((*recv)[k])
-	err    string
+	info    *types.Info
+	tgt     funcTarget
+	recv    string            // receiver identifier
+	params  map[string]string // extra parameters discovered ((*recv)[k], recv.field, recv.path.Method()): name -> Gallina type
+	err     string
+	stopped string // prefix mode: the statement the translation stopped before
+	fset    *token.FileSet
+}
+
+// generated functions so far: key "pkg.Recv.name" -> (Gallina name, receiver-derived parameter names in order)
+type genInfo struct {
+	name   string
+	extras []string
+	etypes map[string]string
+}
+
+var generated = map[string]genInfo{}
+
+func gtype(ty types.Type) string {
+	if b, ok := ty.Underlying().(*types.Basic); ok && b.Info()&types.IsBoolean != 0 {
+		return "bool"
+	}
+	return "Z"
+}
+
+// recvPath returns "a_b" for recv.a.b when e is a selector chain rooted at the receiver
+func (t *ftr) recvPath(e ast.Expr) (string, bool) {
+	switch x := e.(type) {
+	case *ast.Ident:
+		if x.Name == t.recv && t.recv != "" {
+			return "", true
+		}
+	case *ast.SelectorExpr:
+		if p, ok := t.recvPath(x.X); ok {
+			if p == "" {
+				return x.Sel.Name, true
+			}
+			return p + "_" + x.Sel.Name, true
+		}
+	}
+	return "", false
+}
+
+func isNilIdent(e ast.Expr) bool {
+	id, ok := e.(*ast.Ident)
+	return ok && id.Name == "nil"
 }
 
 func (t *ftr) fail(format string, a ...any) string {
@@ -125,7 +170,17 @@ func (t *ftr) expr(e ast.Expr) string {
 		if x.Name == "true" || x.Name == "false" {
 			return x.Name
 		}
+		if x.Name == "nil" {
+			return "0"
+		}
 		return "v_" + x.Name
+	case *ast.SelectorExpr:
+		if p, ok := t.recvPath(x); ok && p != "" {
+			name := "f_" + p
+			t.params[name] = gtype(t.info.TypeOf(e))
+			return name
+		}
+		return t.fail("unsupported selector")
 	case *ast.IndexExpr:
 		// (*recv)[k]
 		base := x.X
@@ -139,7 +194,7 @@ func (t *ftr) expr(e ast.Expr) string {
 		tv, ok2 := t.info.Types[x.Index]
 		if ok && ok2 && tv.Value != nil && id.Name == t.recv {
 			p := fmt.Sprintf("v_%s_%s", id.Name, tv.Value.ExactString())
-			t.params[p] = true
+			t.params[p] = "Z"
 			return p
 		}
 		return t.fail("unsupported index expression")
@@ -184,12 +239,12 @@ func (t *ftr) expr(e ast.Expr) string {
 		case token.GEQ:
 			return fmt.Sprintf("(%s >=? %s)", a, b)
 		case token.EQL:
-			if isIntegral(t.info.TypeOf(x.X)) {
+			if isNilIdent(x.Y) || isNilIdent(x.X) || isIntegral(t.info.TypeOf(x.X)) {
 				return fmt.Sprintf("(%s =? %s)", a, b)
 			}
 			return fmt.Sprintf("(Bool.eqb %s %s)", a, b)
 		case token.NEQ:
-			if isIntegral(t.info.TypeOf(x.X)) {
+			if isNilIdent(x.Y) || isNilIdent(x.X) || isIntegral(t.info.TypeOf(x.X)) {
 				return fmt.Sprintf("(negb (%s =? %s))", a, b)
 			}
 			return fmt.Sprintf("(negb (Bool.eqb %s %s))", a, b)
@@ -203,6 +258,44 @@ func (t *ftr) expr(e ast.Expr) string {
 		// conversion T(x) between integer types
 		if tv, ok := t.info.Types[x.Fun]; ok && tv.IsType() && len(x.Args) == 1 && isIntegral(tv.Type) && isIntegral(t.info.TypeOf(x.Args[0])) {
 			return t.wrap(t.expr(x.Args[0]), tv.Type)
+		}
+		if sel, ok := x.Fun.(*ast.SelectorExpr); ok {
+			// a method of the receiver (or of something reachable from it) without arguments: an input of the function
+			if p, ok := t.recvPath(sel.X); ok && len(x.Args) == 0 && p != "" {
+				name := "m_" + p + "_" + sel.Sel.Name
+				t.params[name] = gtype(t.info.TypeOf(e))
+				return name
+			}
+			// a method that has been translated: call the generated function
+			if selinfo, ok := t.info.Selections[sel]; ok {
+				rt := selinfo.Recv()
+				if pt, ok := rt.(*types.Pointer); ok {
+					rt = pt.Elem()
+				}
+				if named, ok := rt.(*types.Named); ok {
+					pk := "gws"
+					if strings.HasSuffix(named.Obj().Pkg().Path(), "/internal") {
+						pk = "internal"
+					}
+					if g, ok := generated[pk+"."+named.Obj().Name()+"."+sel.Sel.Name]; ok {
+						var args []string
+						if p, isRecv := t.recvPath(sel.X); isRecv && p == "" {
+							for _, ex := range g.extras { // same receiver object: its inputs are ours
+								t.params[ex] = g.etypes[ex]
+								args = append(args, ex)
+							}
+						} else if len(g.extras) == 0 {
+							args = append(args, t.expr(sel.X)) // value receiver
+						} else {
+							return t.fail("call of a translated method on another object")
+						}
+						for _, a := range x.Args {
+							args = append(args, t.expr(a))
+						}
+						return "(" + g.name + " " + strings.Join(args, " ") + ")"
+					}
+				}
+			}
 		}
 		return t.fail("unsupported call")
 	case *ast.CompositeLit:
@@ -227,6 +320,16 @@ func (t *ftr) stmts(list []ast.Stmt, k string) string {
 	switch s := list[0].(type) {
 	case *ast.ReturnStmt:
 		if len(s.Results) == 1 {
+			if call, ok := s.Results[0].(*ast.CallExpr); ok && t.tgt.skeleton {
+				// `return c.other()`: a tail call into code outside the subset - marked -1 unless it can be translated
+				save := t.err
+				r := t.expr(call)
+				if t.err != save {
+					t.err = save
+					return "(-1)"
+				}
+				return r
+			}
 			return t.expr(s.Results[0])
 		}
 		if len(s.Results) == 0 {
@@ -237,7 +340,9 @@ func (t *ftr) stmts(list []ast.Stmt, k string) string {
 		return t.stmts(append(append([]ast.Stmt{}, s.List...), list[1:]...), k)
 	case *ast.IfStmt:
 		if s.Init != nil {
-			return t.fail("if with init statement")
+			noInit := *s
+			noInit.Init = nil
+			return t.stmts(append([]ast.Stmt{s.Init, &noInit}, list[1:]...), k)
 		}
 		thenB := t.stmts(append(append([]ast.Stmt{}, s.Body.List...), list[1:]...), k)
 		var elseB string
@@ -298,7 +403,13 @@ func (t *ftr) stmts(list []ast.Stmt, k string) string {
 		return fmt.Sprintf("(let v_%s := %s in\n   %s)", id.Name, t.wrap(fmt.Sprintf("(v_%s %s 1)", id.Name, op), t.info.TypeOf(id)), rest())
 	case *ast.AssignStmt:
 		if len(s.Lhs) != 1 || len(s.Rhs) != 1 {
-			if t.tgt.skeleton {
+			if t.tgt.skeleton && s.Tok == token.DEFINE && len(s.Rhs) == 1 {
+				// `a, err := call(...)` with a call outside the subset: its results are inputs of the generated function
+				for _, l := range s.Lhs {
+					if id, ok := l.(*ast.Ident); ok && id.Name != "_" {
+						t.params["v_"+id.Name] = gtype(t.info.TypeOf(id))
+					}
+				}
 				return rest()
 			}
 			return t.fail("multiple assignment")
@@ -382,7 +493,12 @@ func findSwitch(n ast.Node, tag string) *ast.SwitchStmt {
 	return found
 }
 
+var pkgFset *token.FileSet
+
 func genFuncs(pkgs []*packages.Package) string {
+	if len(pkgs) > 0 {
+		pkgFset = pkgs[0].Fset
+	}
 	var b strings.Builder
 	b.WriteString("(* GENERATED by /verif/translator (funcs.go) from /repo on every run - do not edit.\n   Go integer semantics over Z: unsigned results reduced mod 2^width, int = mathematical integer. *)\n")
 	b.WriteString("From Coq Require Import ZArith List Bool.\nImport ListNotations.\nLocal Open Scope Z_scope.\nLocal Open Scope bool_scope.\n\n")
@@ -425,9 +541,15 @@ func genFuncs(pkgs []*packages.Package) string {
 			unsupported = append(unsupported, name+": function not found")
 			continue
 		}
-		t := &ftr{info: info, tgt: tg, params: map[string]bool{}}
-		var params []string
-		var body string
+		t := &ftr{info: info, tgt: tg, params: map[string]string{}}
+		type par struct{ name, ty string }
+		var params []par
+		var body, note string
+		setRecv := func(t *ftr) {
+			if fd.Recv != nil && len(fd.Recv.List[0].Names) == 1 {
+				t.recv = fd.Recv.List[0].Names[0].Name
+			}
+		}
 		if tg.fragTag != "" {
 			sw := findSwitch(fd.Body, tg.fragTag)
 			if sw == nil {
@@ -435,26 +557,47 @@ func genFuncs(pkgs []*packages.Package) string {
 				continue
 			}
 			name += "_" + tg.fragOut
-			params = []string{"v_" + tg.fragTag, "v_" + tg.fragOut}
+			params = []par{{"v_" + tg.fragTag, "Z"}, {"v_" + tg.fragOut, "Z"}}
 			body = t.stmts([]ast.Stmt{sw}, "v_"+tg.fragOut)
 		} else {
-			if fd.Recv != nil && len(fd.Recv.List[0].Names) == 1 {
-				t.recv = fd.Recv.List[0].Names[0].Name
+			setRecv(t)
+			if t.recv != "" {
 				if _, isPtr := fd.Recv.List[0].Type.(*ast.StarExpr); !isPtr {
-					params = append(params, "v_"+t.recv) // value receiver of integer type
+					if isIntegral(info.TypeOf(fd.Recv.List[0].Type)) {
+						params = append(params, par{"v_" + t.recv, "Z"}) // value receiver of integer type
+					}
 				}
 			}
 			for _, f := range fd.Type.Params.List {
 				for _, n := range f.Names {
-					params = append(params, "v_"+n.Name)
+					params = append(params, par{"v_" + n.Name, gtype(info.TypeOf(f.Type))})
 				}
 			}
 			k := "0"
-			if fd.Type.Results != nil && len(fd.Type.Results.List) == 1 && len(fd.Type.Results.List[0].Names) == 1 {
-				k = "v_" + fd.Type.Results.List[0].Names[0].Name // named result
-				body = fmt.Sprintf("(let %s := 0 in\n   %s)", k, t.stmts(fd.Body.List, k))
+			named := fd.Type.Results != nil && len(fd.Type.Results.List) == 1 && len(fd.Type.Results.List[0].Names) == 1
+			if named {
+				k = "v_" + fd.Type.Results.List[0].Names[0].Name
+			}
+			list := fd.Body.List
+			if tg.prefix {
+				// the longest leading run of top-level statements inside the subset
+				for n := len(list); n >= 0; n-- {
+					t2 := &ftr{info: info, tgt: tg, params: map[string]string{}}
+					setRecv(t2)
+					b2 := t2.stmts(list[:n], k)
+					if t2.err == "" {
+						t, body = t2, b2
+						if n < len(list) {
+							note = fmt.Sprintf("(* the translated prefix ends before the statement at %s *)\n", pkgFset.Position(list[n].Pos()).String()[strings.LastIndex(pkgFset.Position(list[n].Pos()).String(), "/")+1:])
+						}
+						break
+					}
+				}
 			} else {
-				body = t.stmts(fd.Body.List, k)
+				body = t.stmts(list, k)
+			}
+			if named {
+				body = fmt.Sprintf("(let %s := 0 in\n   %s)", k, body)
 			}
 		}
 		if t.err != "" {
@@ -463,13 +606,25 @@ func genFuncs(pkgs []*packages.Package) string {
 		}
 		var extra []string
 		for p := range t.params {
-			extra = append(extra, p)
+			dup := false
+			for _, q := range params {
+				if q.name == p {
+					dup = true
+				}
+			}
+			if !dup {
+				extra = append(extra, p)
+			}
 		}
 		sort.Strings(extra)
-		all := append(extra, params...)
-		fmt.Fprintf(&b, "(* %s.%s%s *)\nDefinition %s", tg.pkg, map[bool]string{true: tg.recv + ".", false: ""}[tg.recv != ""], tg.name, name)
-		for _, p := range all {
-			fmt.Fprintf(&b, " (%s : Z)", p)
+		key := tg.pkg + "." + tg.recv + "." + tg.name
+		generated[key] = genInfo{name: name, extras: extra, etypes: t.params}
+		fmt.Fprintf(&b, "(* %s.%s%s *)\n%sDefinition %s", tg.pkg, map[bool]string{true: tg.recv + ".", false: ""}[tg.recv != ""], tg.name, note, name)
+		for _, p := range extra {
+			fmt.Fprintf(&b, " (%s : %s)", p, t.params[p])
+		}
+		for _, p := range params {
+			fmt.Fprintf(&b, " (%s : %s)", p.name, p.ty)
 		}
 		fmt.Fprintf(&b, " :=\n  %s.\n\n", body)
 	}
